@@ -287,9 +287,10 @@ let rec handle (line : string) : string =
               M.recv_to = z_of_str recv; M.use_checksum = cks; M.rbuf_blocks = n_of_str rbuf } in
     (match M.check c with
      | M.Inl c' ->
-       Printf.sprintf "OK port=%s hb=%s conn=%s send=%s recv=%s ck=%s rbuf=%s key=%s" (str_of_n c'.M.port) (str_of_z c'.M.heartbeat)
+       Printf.sprintf "OK port=%s hb=%s conn=%s send=%s recv=%s ck=%s rbuf=%s key=%s dial=%s:%s" (str_of_n c'.M.port) (str_of_z c'.M.heartbeat)
          (str_of_z c'.M.conn_to) (str_of_z c'.M.send_to) (str_of_z c'.M.recv_to)
          (match c'.M.use_checksum with M.CBool b -> b01 b | _ -> "?") (str_of_n c'.M.rbuf_blocks) (hex_of_bytes (M.key_of c'))
+         (hex_of_bytes c'.M.address) (str_of_n c'.M.port)
      | M.Inr (M.Missing fs) ->
        "ERR missing=" ^ String.concat "," (List.map (function M.FAddress -> "address" | M.FUser -> "username" | M.FPassword -> "password" | M.FKey -> "key") fs)
      | M.Inr (M.BadChecksum _) -> "ERR checksum")
